@@ -821,7 +821,7 @@ func probes(res *core.Result, ls listSpec, l *listRun) {
 func finish(res *core.Result, ls listSpec, o core.RunOpts, extraTrace []string) *core.Result {
 	l, escaped := execList(ls, o.KeepTrace)
 	h := core.NewHash()
-	h.Add(uint64(ls.enc*2+ls.dir)<<8 | uint64(ls.shape)<<4 | b2u(ls.goexit)<<1 | uint64(ls.typeHelper)<<2 | uint64(ls.prelude)<<16 | b2u(ls.narrow)<<20)
+	h.Add(uint64(ls.enc*2+ls.dir)<<8 | uint64(ls.shape)<<4 | b2u(ls.goexit)<<1 | uint64(ls.typeHelper)<<2 | uint64(ls.prelude)<<16 | b2u(ls.narrow)<<20 | b2u(ls.nilErr)<<21)
 	for _, c := range ls.cases {
 		h.Add(uint64(c.constraint)<<24 | uint64(c.beh)<<16 | uint64(c.before)<<12 | uint64(c.after)<<8 | uint64(c.pred) | b2u(c.nilValue)<<28 | b2u(c.nilIface)<<29 | b2u(c.adjust)<<30 | uint64(c.wrongKind)<<32 | b2u(c.wildcard)<<31 | b2u(c.nilExpect)<<36 | b2u(c.other)<<37 | b2u(c.emptyData)<<38 | b2u(c.nilData)<<39 | b2u(c.adjustPred)<<40 | b2u(c.adjustAfter)<<42 | b2u(c.beforeSetsAfter)<<43 | b2u(len(c.payload) > 1000)<<41)
 	}
@@ -915,6 +915,7 @@ func genCase(t *core.Tape) caseSpec {
 	if t.Bool(1, 48) {
 		c.payload = bigPayload // well beyond any buffer or chunk size a comparison might use
 	}
+	c.predDrawn = c.pred
 	return c
 }
 
@@ -954,6 +955,17 @@ func (Prop) Run(t *core.Tape, o core.RunOpts) *core.Result {
 		ls.narrow = true
 		res.Probes.Inc("narrow_interface_typed_T")
 	}
+	if ls.shape == shIface && t.Bool(1, 4) {
+		for i := range ls.cases {
+			if c := &ls.cases[i]; i > 0 && c.nilIface && c.predDrawn != pNone && !c.adjustPred {
+				c.pred = c.predDrawn
+				ls.nilErr = true
+			}
+		}
+		if ls.nilErr {
+			res.Probes.Inc("nil_interface_value_with_expected_error")
+		}
+	}
 	finish(res, ls, o, nil)
 	if res.Violation != nil || !ls.hasInterface() || !singles {
 		return res
@@ -962,6 +974,7 @@ func (Prop) Run(t *core.Tape, o core.RunOpts) *core.Result {
 	for i := range ls.cases {
 		one := ls
 		one.cases = []caseSpec{ls.cases[i]}
+		one.nilErr = false // a list of one: normalise settles what a nil interface value means there
 		normalise(&one)
 		finish(res, one, o, []string{fmt.Sprintf("singleton re-run of case %d", i)})
 		res.Extra.Inc("singleton_reruns")
